@@ -15,11 +15,12 @@ func init() {
 			{Name: "slow", Cfg: "slow", Gating: true, Share: 1},
 		},
 		QuickSecs: 40, ThoroughSecs: 600,
-		Rule: "one case = one generated Schedule/re-Schedule/Release/clock-advance program (1-4 tasks, every and cron specs, offsets, LastScheduled up to 3.8 periods in the past, " +
+		Rule: "one case = one generated Schedule/re-Schedule/Release/clock-advance program (1-4 tasks, every and cron specs incl. year-bounded crons that run out, offsets, LastScheduled up to 3.8 periods in the past, " +
 			"per-run executor duration/error/panic/checkpoint-failure) on a TreeScheduler with 2-4 workers under one seeded interleaving; non-trivial = at least 3 operations, at least one " +
 			"executor invocation and one context switch; distinct = distinct hash of (operations, context-switch sequence with sites)",
-		Probes: []string{"reschedule", "release", "schedule_overdue", "catchup_run", "successive_runs", "when_checks", "slow_run", "checkpoints"},
-		Real:   schedReal, Stub: schedStub,
+		Probes: []string{"reschedule", "release", "schedule_overdue", "catchup_run", "successive_runs", "when_checks", "slow_run", "checkpoints",
+			"finite_schedule_exhausted", "ran_out_reported_to_onerr", "schedule_rejected_ran_out"},
+		Real: schedReal, Stub: schedStub,
 		Assumptions: []string{
 			"a run belongs to the Schedule call whose successive Next() values it continues; after a re-Schedule returned, one run of the replaced schedule (the one already handed to a worker) may still start",
 			"quiescent point = the main goroutine has just slept on the virtual clock and is not on the grid of due times, so every other goroutine is blocked; When() and 'due run with idle worker has started (bound 2 s)' are judged only there; a When() mismatch is confirmed one virtual millisecond later before it is reported",
@@ -33,16 +34,19 @@ func init() {
 		Cfgs: []cfgSpec{
 			{Name: "with-sentinel", Cfg: "c25,calm,fast", Gating: true, Share: 3},
 			{Name: "plain", Cfg: "c25,fast", Gating: true, Share: 1},
+			{Name: "concurrent", Cfg: "c25,fast,conc", Gating: true, Share: 3},
 		},
 		QuickSecs: 40, ThoroughSecs: 600,
 		Rule: "one case = one generated create(active|inactive)/update(status, schedule)/delete/restart/clock-advance history over 1-4 tasks through middleware.CoordinatingTaskService, " +
 			"coordinator.Coordinator and the real TreeScheduler, followed by 65 simulated seconds; non-trivial = at least 3 operations, one executor invocation, one context switch; " +
 			"distinct = distinct hash of (operations, context-switch sequence)",
-		Probes: []string{"create_inactive", "create_active", "update_schedule", "delete", "restart", "update_active_to_inactive", "update_inactive_to_active"},
-		Real:   append([]string{"task/backend/coordinator.Coordinator (instrumented)", "task/backend/middleware.CoordinatingTaskService", "task/backend.NotifyCoordinatorOfExisting, backend.SchedulableTaskService"}, schedReal...),
-		Stub:   append([]string{"task store: in-memory map implementing the used part of taskmodel.TaskService (FindTasks pages by 2)", "coordinator executor (manual runs): unused stub"}, schedStub...),
+		Probes: []string{"create_inactive", "create_active", "update_schedule", "delete", "restart", "update_active_to_inactive", "update_inactive_to_active",
+			"update_during_checkpoint", "schedule_update_during_checkpoint"},
+		Real: append([]string{"task/backend/coordinator.Coordinator (instrumented)", "task/backend/middleware.CoordinatingTaskService", "task/backend.NotifyCoordinatorOfExisting, backend.SchedulableTaskService"}, schedReal...),
+		Stub: append([]string{"task store: in-memory map implementing the used part of taskmodel.TaskService (FindTasks pages by 2)", "coordinator executor (manual runs): unused stub"}, schedStub...),
 		Assumptions: []string{
 			"expected schedule of a task = coordinator.NewSchedulableTask(latest stored version): successive Next() values after its LastScheduled",
+			"configuration concurrent: operations are issued on whole seconds while runs are dispatched, store accesses are sequences of scheduling points, so worker checkpoints interleave with the two store accesses of a coordinating UpdateTask; no settling between operations",
 			"configuration with-sentinel: a harness task due every second keeps the scheduler's timer from firing with nothing due (known spin, C24), so that the history can be run to its end",
 		},
 	})
